@@ -158,7 +158,7 @@ pub enum Scenario {
     RoundTrip,
     /// update_paragraph onto prior contents `kind` (0 empty, 1 own fields with other values, 2 own fields interleaved with
     /// foreign fields (and comments on the lossless back-end), 3 every own optional field present, 4 only the later-declared
-    /// half of the present fields after a foreign field, without final newline), back-end
+    /// half of the present fields after a foreign field, without final newline, 5 every own field twice), back-end
     Update(usize, bool),
     MissingMandatory(usize),
     Invalid(usize),
@@ -256,6 +256,18 @@ fn check_update(sp: &ParaSpec, v: &[usize], kind: usize, lossless: bool) -> Vec<
                 prior.push_str(&render_para(&[(f.name, other(f))]));
             }
         }
+        5 => {
+            // every own field TWICE (a paragraph may repeat a field name), around a foreign field: a field whose value is
+            // absent must be gone afterwards - every occurrence of it
+            for f in sp.fields.iter() {
+                prior.push_str(&render_para(&[(f.name, other(f))]));
+            }
+            prior.push_str("X-Foreign-First: keep 1\n");
+            foreign.push("X-Foreign-First: keep 1".into());
+            for f in sp.fields.iter() {
+                prior.push_str(&render_para(&[(f.name, f.valid[0])]));
+            }
+        }
         _ => {
             // only the later-declared half of the present fields (other values), after a foreign field and a comment,
             // and NO final newline: the earlier-declared fields get appended, then the existing ones are rewritten
@@ -299,7 +311,8 @@ fn check_update(sp: &ParaSpec, v: &[usize], kind: usize, lossless: bool) -> Vec<
     for (f, x) in sp.fields.iter().zip(v.iter()) {
         let n = printed_items.iter().filter(|(k, _)| k == f.name).count();
         let want = if *x > 0 { 1 } else { 0 };
-        if n != want {
+        // on a prior that repeats field names the statement only demands that absent fields are gone
+        if n != want && !(kind == 5 && want == 1 && n >= 1) {
             out.push(viol("update-sets-and-removes-own-fields", ctx(&format!("field {} occurs {} times, expected {}", f.name, n, want))));
         }
     }
@@ -388,7 +401,7 @@ impl Prop for C16 {
         "exploration"
     }
     fn rule(&self, _t: Tier) -> String {
-        "programs: 16 single-field structs (every combination of mandatory/optional x default/renamed key x default/custom serialiser x default/custom deserialiser), one struct with all 16 shapes, and every deriving struct shipped in the workspace; values: per struct every presence/value vector within k deviations (k = 2, thorough 3; full product for the single-field structs) of the all-mandatory and the all-present baselines; scenarios per vector: round trip on both back-ends; for k <= 1 also update_paragraph onto 5 prior contents x 2 back-ends, deletion of each mandatory field, corruption of each field that has an invalid value; non-trivial = all".into()
+        "programs: 16 single-field structs (every combination of mandatory/optional x default/renamed key x default/custom serialiser x default/custom deserialiser), one struct with all 16 shapes, and every deriving struct shipped in the workspace; values: per struct every presence/value vector within k deviations (k = 2, thorough 3; full product for the single-field structs) of the all-mandatory and the all-present baselines; scenarios per vector: round trip on both back-ends; for k <= 1 also update_paragraph onto 6 prior contents x 2 back-ends, deletion of each mandatory field, corruption of each field that has an invalid value; non-trivial = all".into()
     }
     fn bounds(&self, t: Tier) -> Value {
         json!({"structs": all_specs().iter().map(|s| json!({"id": s.id, "fields": s.fields.len()})).collect::<Vec<_>>(), "k": t.pick(2, 3)})
@@ -426,7 +439,7 @@ impl Prop for C16 {
                 let devs = dv.iter().filter(|d| **d != 0).count();
                 f(&C16Case { spec: sp.id.to_string(), v: v.clone(), scenario: Scenario::RoundTrip });
                 if devs <= 1 {
-                    for kind in 0..5 {
+                    for kind in 0..6 {
                         for lossless in [false, true] {
                             f(&C16Case { spec: sp.id.to_string(), v: v.clone(), scenario: Scenario::Update(kind, lossless) });
                         }
